@@ -177,7 +177,7 @@ def lparse (G : Grammar) : Nat → Src → Expr → Nat → Res
 inductive PRes where
   | oof | gerr | fail
   | ok (t : Tree) (stop : Nat)
-deriving Repr, Inhabited
+deriving Repr, Inhabited, DecidableEq
 
 /-- `Rule.parse` applied to the outcome of `Rule.lparse`: `set(g)` is modelled by an arbitrary
 re-ordering `perm` of the match list (hash order), then `next(next_longest(...))`. -/
